@@ -34,7 +34,7 @@ DOM_T = {
     "bool": [None, "n", "y"],
     "int": [None, "3", "7", "42"],
     "hex": [None, "0x5", "1f"],
-    "string": [None, "", "v1", "a b"],
+    "string": [None, "", "v1", "a b", "t # CONFIG_A is not set"],  # the last: text that reads like an entry of the file
     "float": [None, "0.5", "5"],
 }
 # quick: one in-range / equal-to-some-default value and one other value per type
@@ -42,7 +42,7 @@ DOM_Q = {
     "bool": [None, "n", "y"],
     "int": [None, "5", "42"],
     "hex": [None, "0x10", "1f"],
-    "string": [None, "fb", "a b"],
+    "string": [None, "fb", "# CONFIG_A is not set"],
     "float": [None, "1.5", "5"],
 }
 
